@@ -381,8 +381,22 @@ Qed.
 (* ---- the simulation relation -------------------------------------------------------------- *)
 Definition canon (m : gmap key Z) : Prop := forall k, m !! k <> Some 0.
 
+(* code cache coherence: so.code is nil or the code whose hash the account carries (and then it is
+   marked dirty, so commitCode stores it); a nil cache of a non-empty hash is backed by the code store *)
+Definition CC (p : pers) (o : obj) : Prop :=
+  (o_cache o = 0%N \/ (o_cache o = o_hash o /\ o_dirtycode o = true)) /\
+  (o_cache o = 0%N -> o_hash o <> 0%N -> is_Some (p_codes p !! o_hash o)).
+Lemma CC_code p o : CC p o -> obj_code p o = o_hash o.
+Proof.
+  intros [[Hc|[Hc _]] H2]; unfold obj_code.
+  - rewrite Hc. simpl. destruct (o_hash o =? 0)%N eqn:E; [apply N.eqb_eq in E; congruence|].
+    apply N.eqb_neq in E. destruct (H2 Hc E) as [u ->]. reflexivity.
+  - destruct (o_cache o =? 0)%N eqn:E; simpl; [|exact Hc].
+    apply N.eqb_eq in E. rewrite <- Hc, E. reflexivity.
+Qed.
+
 Definition arel (p : pers) (x : addr) (o : obj) (c : acct) : Prop :=
-  o_bal o = bal c /\ o_nonce o = nonce c /\ o_hash o = code c /\ o_suic o = suic c /\
+  o_bal o = bal c /\ o_nonce o = nonce c /\ (o_hash o = code c /\ CC p o) /\ o_suic o = suic c /\
   (forall k, oget p x o k = sget (stor c) k) /\ (forall k, pslot p x k = sget (comm c) k) /\
   DW o /\ OW p x o /\ canon (stor c).
 Definition orel (p : pers) (x : addr) (so : option obj) (sc : option acct) : Prop :=
@@ -405,6 +419,7 @@ Definition sundo (e : entry) (c : core) : core :=
   | ENonce x prev => with_accts c (alter (fun a => with_nonce a prev) x (accts c))
   | EStorage x k prev => with_accts c (alter (fun a => with_stor a (cset k prev (stor a))) x (accts c))
   | ESuicide x prev pb => with_accts c (alter (fun a => with_suic (with_bal a pb) prev) x (accts c))
+  | ECode x ph _ => with_accts c (alter (fun a => with_code a ph) x (accts c))
   | ERefund prev => with_refund c prev
   | _ => c
   end.
@@ -414,7 +429,8 @@ Definition sundo_list (l : list entry) (c : core) : core := fold_left (fun c e =
 Definition entry_ok (p : pers) (e : entry) : Prop :=
   match e with
   | ECreate x => load p x = None
-  | EReset _ _ | ECode _ _ _ | ELog | EAlAddr _ | EAlSlot _ _ => False
+  | ECode _ ph pc => pc = ph
+  | EReset _ _ | ELog | EAlAddr _ | EAlSlot _ _ => False
   | _ => True
   end.
 
@@ -502,7 +518,8 @@ Proof. destruct c; reflexivity. Qed.
 Lemma arel_new p x : NR p -> load p x = None -> arel p x (mk_obj 0 0 0%N) (new_acct 0).
 Proof.
   intros HN Hl. unfold arel, new_acct; simpl.
-  refine (conj eq_refl (conj eq_refl (conj eq_refl (conj eq_refl (conj _ (conj _ (conj _ (conj _ _)))))))).
+  assert (CC p (mk_obj 0 0 0%N)) as Hcc by (split; [left; reflexivity|intros _ Hc; done]).
+  refine (conj eq_refl (conj eq_refl (conj (conj eq_refl Hcc) (conj eq_refl (conj _ (conj _ (conj _ (conj _ _)))))))).
   - intros k. unfold oget; simpl. rewrite lookup_empty. unfold sget. rewrite lookup_empty. simpl. apply HN. exact Hl.
   - intros k. unfold sget. rewrite lookup_empty. simpl. apply HN. exact Hl.
   - intros k i. simpl. rewrite lookup_empty. split; [done|]. intros [v Hv]. rewrite lookup_nil in Hv. done.
@@ -666,7 +683,7 @@ Lemma sim_Empty a s x : Inv a s -> simo a s (Empty x).
 Proof.
   intros HI. destruct (read_sim a s x (fun so => OBool (match so with Some o => obj_empty o | None => true end))
     (fun sc => OBool (match sc with Some c => acct_empty c | None => true end)) HI) as (a' & H1 & H2).
-  { intros [o|] [c|] Hr; simpl in Hr; try done. destruct Hr as (A & B & C & _).
+  { intros [o|] [c|] Hr; simpl in Hr; try done. destruct Hr as (A & B & (C & _) & _).
     unfold obj_empty, acct_empty. rewrite A, B, C. reflexivity. }
   eexists _, a', s. split; [exact H1|]. split; [reflexivity|exact H2].
 Qed.
@@ -678,6 +695,18 @@ Lemma arel_nonce p x o c n : arel p x o c -> arel p x (set_nonce o n) (with_nonc
 Proof. intros (A & B & C & D & E & F & G & H & I). exact (conj A (conj eq_refl (conj C (conj D (conj E (conj F (conj G (conj H I)))))))). Qed.
 Lemma arel_suic p x o c b : arel p x o c -> arel p x (set_suic o b) (with_suic c b).
 Proof. intros (A & B & C & D & E & F & G & H & I). exact (conj A (conj B (conj C (conj eq_refl (conj E (conj F (conj G (conj H I)))))))). Qed.
+
+Lemma arel_code p x o c h : arel p x o c -> arel p x (set_code o h h) (with_code c h).
+Proof.
+  intros (A & B & C & D & E & F & G & H & I).
+  assert (CC p (set_code o h h)) as Hcc.
+  { split; simpl.
+    - destruct (decide (h = 0%N)) as [->|]; [left; reflexivity|right; split; reflexivity].
+    - intros -> Hc. done. }
+  exact (conj A (conj B (conj (conj eq_refl Hcc) (conj D (conj E (conj F (conj G (conj H I)))))))).
+Qed.
+Lemma with_code_undo c h : with_code (with_code c h) (code c) = c.
+Proof. destruct c; reflexivity. Qed.
 
 Lemma with_bal_undo c b : with_bal (with_bal c b) (bal c) = c.
 Proof. destruct c; reflexivity. Qed.
@@ -693,7 +722,7 @@ Lemma sim_AddBalance a s x v : Inv a s -> simo a s (AddBalance x v).
 Proof.
   intros HI. destruct (gn_rel a s x HI) as (a1 & o & new & ac & Hg & HW1 & HJ1 & Hl1 & Hoth & He1 & Hf1 & Har & Hgn & Hcase).
   unfold simo. simpl. rewrite Hg. simpl. unfold upd_acct. rewrite Hgn.
-  pose proof Har as (Ab & An & Ah & As & _).
+  pose proof Har as (Ab & An & (Ah & _) & As & _).
   destruct (v =? 0) eqn:Ev.
   - apply Z.eqb_eq in Ev. subst v. rewrite Z.add_0_r, with_bal_same.
     assert (forall a', WO a' -> JOK a' -> (forall y, look a' y = look a1 y) -> forall es2,
@@ -1060,6 +1089,16 @@ Proof.
     * unfold arel. simpl. refine (conj A (conj B (conj C (conj D (conj _ (conj F (conj HD2 (conj H _)))))))).
       -- intros k'. rewrite Hget2. rewrite cset_get by exact I. destruct (decide (k = k')); [reflexivity|apply E].
       -- apply cset_canon. exact I.
+  - (* ECode *)
+    destruct (live_obj a x) as [[a1 o]|] eqn:Hlo; simpl in Hre; [|done].
+    destruct (live_obj_spec _ _ _ _ HW Hlo) as (Hlx & HW1 & Hl1 & (Hp1 & He1 & Hr1 & Hn1) & Hf1 & _).
+    destruct (set_obj_spec a1 x (set_code o ph pc) HW1) as (l & m & Hs & HW' & Hl'). rewrite Hs in Hre. inversion Hre; subst a'.
+    pose proof (proj1 HC x) as Hx. unfold orel in Hx. rewrite Hlx in Hx.
+    destruct (accts c !! x) as [ac|] eqn:Hac; [|done].
+    split; [exact HW'|]. split; [|repeat split; simpl; congruence].
+    eapply (crel_alter a _ c x _ _ ac); eauto.
+    * intros y. rewrite Hl'. destruct (decide (x = y)); [reflexivity|apply Hl1].
+    * subst pc. apply arel_code. exact Hx.
   - (* ERefund *) inversion Hre; subst a'. split; [exact HW|]. split; [|repeat split].
     split; [exact (proj1 HC)|reflexivity].
   - (* ETouch *) inversion Hre; subst a'. split; [exact HW|]. split; [exact HC|repeat split].
@@ -1286,6 +1325,25 @@ Proof.
   split; [congruence|]. split; [congruence|]. intros y k Hy. rewrite G3 by done. apply F4. congruence.
 Qed.
 
+Lemma commit_state_codes x o p : p_codes (commit_state x o p) = p_codes p.
+Proof.
+  unfold commit_state. generalize (o_dirty o). intros l. revert p.
+  induction l as [|kv l IH]; intros p; cbn [fold_left]; [reflexivity|].
+  rewrite IH. destruct (commit_slot_frame x o p kv) as (_ & _ & F3 & _). exact F3.
+Qed.
+Lemma finalise_obj_codes D p xo h : is_Some (p_codes p !! h) -> is_Some (p_codes (finalise_obj D p xo) !! h).
+Proof.
+  intros H. destruct xo as [x o]. unfold finalise_obj. destruct (o_suic o || _); [exact H|].
+  destruct (bool_decide _); [|exact H]. simpl. rewrite commit_state_codes.
+  destruct (negb (o_cache o =? 0)%N && o_dirtycode o); [|exact H].
+  destruct (decide (o_hash o = h)) as [->|Hne]; [rewrite lookup_insert; eauto|rewrite lookup_insert_ne by done; exact H].
+Qed.
+Lemma fold_codes D l : forall p h, is_Some (p_codes p !! h) ->
+  is_Some (p_codes (fold_left (finalise_obj D) l p) !! h).
+Proof.
+  induction l as [|xo l IH]; intros p h H; cbn [fold_left]; [exact H|]. apply IH. apply finalise_obj_codes. exact H.
+Qed.
+
 Lemma finalise_obj_other D p y o x : x <> y -> agree_at x p (finalise_obj D p (y, o)).
 Proof.
   intros Hne. unfold finalise_obj. destruct (o_suic o || _).
@@ -1306,15 +1364,20 @@ Proof.
 Qed.
 
 Lemma fin_fold_present D x o : forall l p i, uniq l -> l !! i = Some (x, o) ->
-  exists p0, agree_at x p p0 /\ agree_at x (finalise_obj D p0 (x, o)) (fold_left (finalise_obj D) l p).
+  exists p0, agree_at x p p0 /\ agree_at x (finalise_obj D p0 (x, o)) (fold_left (finalise_obj D) l p) /\
+    (forall h, is_Some (p_codes p !! h) -> is_Some (p_codes p0 !! h)) /\
+    (forall h, is_Some (p_codes (finalise_obj D p0 (x, o)) !! h) -> is_Some (p_codes (fold_left (finalise_obj D) l p) !! h)).
 Proof.
   induction l as [|[y oy] l IH]; intros p i Hu Hi; [rewrite lookup_nil in Hi; done|].
   cbn [fold_left]. destruct i as [|i]; simpl in Hi.
-  - inversion Hi; subst. exists p. split; [apply agree_refl|]. apply fin_fold_absent.
-    intros j o' Hc. assert (0 = S j)%nat by (eapply Hu; simpl; eauto). lia.
+  - inversion Hi; subst. exists p. split; [apply agree_refl|]. split.
+    + apply fin_fold_absent.
+      intros j o' Hc. assert (0 = S j)%nat by (eapply Hu; simpl; eauto). lia.
+    + split; [intros h H; exact H|]. intros h H. apply fold_codes. exact H.
   - assert (x <> y) as Hne. { intros ->. assert (S i = 0)%nat by (eapply Hu; simpl; eauto). lia. }
-    destruct (IH (finalise_obj D p (y, oy)) i (uniq_tail _ _ Hu) Hi) as (p0 & A & B).
-    exists p0. split; [|exact B]. eapply agree_trans; [apply finalise_obj_other; exact Hne|exact A].
+    destruct (IH (finalise_obj D p (y, oy)) i (uniq_tail _ _ Hu) Hi) as (p0 & A & B & K0 & K1).
+    exists p0. split; [eapply agree_trans; [apply finalise_obj_other; exact Hne|exact A]|]. split; [exact B|].
+    split; [|exact K1]. intros h H. apply K0. apply finalise_obj_codes. exact H.
 Qed.
 
 Lemma load_shape p x o0 : load p x = Some o0 -> exists n h, o0 = mk_obj (pbal p x) n h.
@@ -1324,12 +1387,13 @@ Proof.
 Qed.
 
 Lemma arel_mk p x b n h c :
-  b = bal c -> n = nonce c -> h = code c -> suic c = false ->
+  b = bal c -> n = nonce c -> h = code c -> (h <> 0%N -> is_Some (p_codes p !! h)) -> suic c = false ->
   (forall k, pslot p x k = sget (stor c) k) -> (forall k, pslot p x k = sget (comm c) k) -> canon (stor c) ->
   arel p x (mk_obj b n h) c.
 Proof.
-  intros -> -> -> Hs H1 H2 H3. unfold arel. simpl.
-  refine (conj eq_refl (conj eq_refl (conj eq_refl (conj (eq_sym Hs) (conj _ (conj H2 (conj _ (conj _ H3)))))))).
+  intros -> -> -> Hcd Hs H1 H2 H3. unfold arel. simpl.
+  assert (CC p (mk_obj (bal c) (nonce c) (code c))) as Hcc by (split; [left; reflexivity|intros _ Hc; exact (Hcd Hc)]).
+  refine (conj eq_refl (conj eq_refl (conj (conj eq_refl Hcc) (conj (eq_sym Hs) (conj _ (conj H2 (conj _ (conj _ H3)))))))).
   - intros k. unfold oget; simpl. rewrite lookup_empty. apply H1.
   - intros k i. simpl. rewrite lookup_empty. split; [done|]. intros [v Hv]. rewrite lookup_nil in Hv. done.
   - intros k i Hk. simpl in Hk. rewrite lookup_empty in Hk. done.
@@ -1397,8 +1461,8 @@ Proof.
   - (* a live object *)
     destruct (look_live a x i HW Hix) as (o & Hoi & Hlx). rewrite Hlx in Hx. unfold orel in Hx.
     destruct (accts (cur s) !! x) as [ac|] eqn:Hac; [|done].
-    pose proof Hx as (Ab & An & Ah & As & Hst & Hcm & HD & HO & Hcan).
-    destruct (fin_fold_present D x o (a_objs a) p i (WOl_uniq _ _ HW) Hoi) as (p0 & A0 & A1). fold p' in A1.
+    pose proof Hx as (Ab & An & (Ah & Hcc) & As & Hst & Hcm & HD & HO & Hcan).
+    destruct (fin_fold_present D x o (a_objs a) p i (WOl_uniq _ _ HW) Hoi) as (p0 & A0 & A1 & K0 & K1). fold p' in A1, K1.
     assert (In (x, o) (a_objs a)) as Hin by (apply elem_of_list_In; eapply elem_of_list_lookup_2; eauto).
     assert (doomed a (x, o) && (negb (o_bal o =? 0) || has_slots p x) = false) as Hres.
     { simpl in Htr. destruct (doomed a (x, o) && (negb (o_bal o =? 0) || has_slots p x)) eqn:E; [|reflexivity].
@@ -1442,12 +1506,22 @@ Proof.
         rewrite Hld. rewrite <- As, Hsu, Hemp, Hde. simpl.
         split; [|split; [done|]].
         -- apply arel_mk; simpl; try assumption; try reflexivity.
+           intros Hh. apply K1. unfold finalise_obj. fold D. rewrite Hsu, Hdirty, Hde. simpl. rewrite commit_state_codes.
+           destruct Hcc as [[Hc0|[Hc1 Hdc]] Hc2].
+           ++ rewrite Hc0. simpl. apply K0. apply Hc2; assumption.
+           ++ rewrite Hdc. assert ((o_cache o =? 0)%N = false) as -> by (apply N.eqb_neq; congruence). simpl.
+              rewrite lookup_insert. eauto.
         -- intros o' [= <-]. exact Hde.
       * (* not marked dirty: clean by the side condition *)
         unfold obj_cleanb in Hok. destruct (load p x) as [o0|] eqn:Hl0; [|done].
-        apply andb_prop in Hok. destruct Hok as [Hok Hcl]. apply andb_prop in Hok. destruct Hok as [Hok _].
+        apply andb_prop in Hok. destruct Hok as [Hok Hcl]. apply andb_prop in Hok. destruct Hok as [Hok Ec].
+        apply andb_prop in Hok. destruct Hok as [Hok _].
         apply andb_prop in Hok. destruct Hok as [Hok Eh]. apply andb_prop in Hok. destruct Hok as [Eb En].
         apply Z.eqb_eq in Eb, En. apply N.eqb_eq in Eh.
+        assert (o_hash o <> 0%N -> is_Some (p_codes p !! o_hash o)) as Hcodes.
+        { intros Hh. apply orb_prop in Ec. destruct Ec as [Ec|Ec].
+          - apply orb_prop in Ec. destruct Ec as [Ec|Ec]; apply N.eqb_eq in Ec; [apply (proj2 Hcc); assumption|congruence].
+          - apply bool_decide_eq_true in Ec. exact Ec. }
         assert (agree_at x p p') as A2 by (eapply agree_trans; eauto).
         rewrite (agree_load _ _ _ A2), Hl0.
         pose proof (i_ne _ _ HI x o0 Hl0) as Hne0.
@@ -1456,6 +1530,7 @@ Proof.
         destruct (load_shape _ _ _ Hl0) as (n0 & h0 & ->). simpl in *.
         split; [|split; [done|intros o' [= <-]; exact Hne0]].
         apply arel_mk; simpl; try congruence.
+        -- intros Hh. apply (fold_codes D (a_objs a) p). rewrite <- Eh. apply Hcodes. congruence.
         -- intros k. rewrite (agree_pslot _ _ _ k A2). rewrite <- (oget_clean p x o HD Hcl k). apply Hst.
         -- intros k. rewrite (agree_pslot _ _ _ k A2). rewrite <- (oget_clean p x o HD Hcl k). apply Hst.
   - (* not live *)
@@ -1465,13 +1540,14 @@ Proof.
     rewrite (agree_load _ _ _ A2).
     destruct (load p x) as [o0|] eqn:Hl0; unfold orel in Hx.
     + destruct (accts (cur s) !! x) as [ac|] eqn:Hac; [|done].
-      pose proof Hx as (Ab & An & Ah & As & Hst & Hcm & HD & HO & Hcan).
+      pose proof Hx as (Ab & An & (Ah & Hcc) & As & Hst & Hcm & HD & HO & Hcan).
       pose proof (i_ne _ _ HI x o0 Hl0) as Hne0.
       assert (acct_empty ac = obj_empty o0) as Hemp by (unfold acct_empty, obj_empty; rewrite Ab, An, Ah; reflexivity).
       destruct (load_shape _ _ _ Hl0) as (n0 & h0 & ->). simpl in *.
       rewrite <- As, Hemp, Hne0. simpl.
       split; [|split; [done|intros o' [= <-]; exact Hne0]].
       apply arel_mk; simpl; try congruence.
+      * intros Hh. apply (fold_codes D (a_objs a) p). apply (proj2 Hcc); [reflexivity|exact Hh].
       * intros k. rewrite (agree_pslot _ _ _ k A2). rewrite <- Hst. unfold oget; simpl. rewrite lookup_empty. reflexivity.
       * intros k. rewrite (agree_pslot _ _ _ k A2). rewrite <- Hst. unfold oget; simpl. rewrite lookup_empty. reflexivity.
     + destruct (accts (cur s) !! x) as [ac|] eqn:Hac; [done|].
@@ -1551,6 +1627,36 @@ Proof.
   - apply arel_new; [exact (i_nr _ _ HI)|exact Hld].
 Qed.
 
+(* code *)
+Lemma sim_read_code a s x (f : N -> Z) (dflt : Z) (opk : nat) : Inv a s ->
+  forall op, (op = GetCodeHash x /\ f = Z.of_N /\ dflt = -1) \/ (op = GetCode x /\ f = Z.of_N /\ dflt = 0) \/
+             (op = GetCodeSize x /\ f = code_size /\ dflt = 0) -> simo a s op.
+Proof.
+  intros HI op Hop. unfold simo.
+  destruct (get_obj_spec a x (i_wo _ _ HI)) as (l & m & Hg & HW1 & Hl1).
+  assert (Inv (w_objs a l m) s) as HI'.
+  { apply (inv_same_spec a _ s HI); try reflexivity; [exact HW1|exact (i_jok _ _ HI)|].
+    intros y. rewrite Hl1. apply (proj1 (i_crel _ _ HI)). }
+  pose proof (proj1 (i_crel _ _ HI) x) as Hx. unfold orel in Hx.
+  destruct Hop as [(-> & -> & ->)|[(-> & -> & ->)|(-> & -> & ->)]]; simpl; unfold read_obj; rewrite Hg; simpl;
+    eexists _, _, s; (split; [reflexivity|]); (split; [|exact HI']);
+    destruct (look a x) as [o|]; destruct (accts (cur s) !! x) as [ac|]; try done;
+    destruct Hx as (_ & _ & (Hh & Hcc) & _); rewrite ?(CC_code _ _ Hcc), ?Hh; reflexivity.
+Qed.
+
+Lemma sim_SetCode a s x c : Inv a s -> simo a s (SetCode x c).
+Proof.
+  intros HI. destruct (gn_rel a s x HI) as (a1 & o & new & ac & Hg & HW1 & HJ1 & Hl1 & Hoth & He1 & Hf1 & Har & Hgn & Hcase).
+  unfold simo. simpl. rewrite Hg. simpl. unfold upd_acct. rewrite Hgn.
+  pose proof Har as (_ & _ & (Ah & Hcc) & _).
+  destruct (js_spec a1 (ECode x (o_hash o) (obj_code (a_pers a) o)) x (set_code o c c) HW1 HJ1) as (a2 & a' & Hj & Hs & HW' & HJ' & Hl' & He' & Hf').
+  rewrite Hj. simpl. rewrite Hs. simpl. eexists _, _, _. split; [reflexivity|]. split; [reflexivity|].
+  eapply (fin_rel a s x a1 a' new [ECode x (o_hash o) (obj_code (a_pers a) o)] ac); eauto.
+  - apply arel_code. exact Har.
+  - constructor; [|constructor]. simpl. apply CC_code. exact Hcc.
+  - simpl. unfold with_accts; simpl. rewrite alter_insert. rewrite Ah, with_code_undo. reflexivity.
+Qed.
+
 (* ---- every operation of the proved core, every sequence, every client ---------------------- *)
 Lemma step_ok_pre a o : step_ok a o = true -> pre_violated a o = false.
 Proof.
@@ -1570,6 +1676,10 @@ Proof.
   - apply simo_sim, sim_GetBalance; assumption.
   - apply simo_sim, sim_GetNonce; assumption.
   - apply simo_sim, sim_SetNonce; assumption.
+  - apply simo_sim, (sim_read_code a s x Z.of_N (-1) 0 HI). left. done.
+  - apply simo_sim, (sim_read_code a s x Z.of_N 0 0 HI). right. left. done.
+  - apply simo_sim, sim_SetCode; assumption.
+  - apply simo_sim, (sim_read_code a s x code_size 0 0 HI). right. right. done.
   - apply sim_AddRefund; assumption.
   - apply sim_SubRefund; assumption.
   - apply sim_GetRefund; assumption.
